@@ -76,6 +76,86 @@ Theorem C14_parse_unparse_authorizer : forall a l ps,
   parse_authorizer (flat l) ps = authorizer_to_biscuit ps a.
 Proof. exact (@C14_parse_unparse_authorizer). Qed.
 
+(* ---- arbitrary layout ----
+   [render_any pre l] is the text with the layout bytes [pre] in front and, after each token
+   [t] of [l], the layout bytes paired with it: ANY byte string over space, tab, \n, \r
+   ([is_layout]), i.e. any sequence of the elided Whitespace / EOL tokens, also before the
+   first and after the last token.  [lexable_any] is [lexable] without the restriction of
+   the gaps to {nothing, " ", "\n"}: per token, [tok_ok t nx] with [nx] the byte that follows
+   the token in the text.  A non-empty gap discharges that condition for every token that is
+   acceptable at the end of the text, except that the gap after a Comment token must start
+   with \n (C14_token_before_layout); an empty gap requires that the next token does not
+   glue ("<" "-", "/" "/", digits, word bytes ...).
+   Comments: the grammar has them only as the leading "@Comment*" of Rule, Block and
+   Authorizer, where [up_rule], [up_block], [up_authorizer] put the Comment tokens; a comment
+   in any other gap makes the library's parser (and the model) fail — see
+   C14_comments_only_leading — so no theorem allows one there. *)
+Theorem C14_render_any_def : forall pre l, render_any pre l = pre ++ flat l.
+Proof. reflexivity. Qed.
+
+Theorem C14_lex_render_any_layout : forall pre l,
+  forallb is_layout pre = true -> lexable_any l = true ->
+  lex (render_any pre l) = Ok (List.map fst l).
+Proof. exact (@lex_render_any). Qed.
+
+(* the same with the text given as a list of tokens and single layout bytes in any order *)
+Theorem C14_lex_items_any_layout : forall l, lexable_i_any l = true -> lex (flat_i l) = Ok (toks_i l).
+Proof. exact (@lex_items_any). Qed.
+
+(* the layouts of C14_lex_render (and of C15_layout_lexes) are special cases *)
+Theorem C14_lexable_is_lexable_any : forall l, lexable l = true -> lexable_any l = true.
+Proof. exact (@lexable_any_of). Qed.
+Theorem C14_lexable_i_is_lexable_i_any : forall l, lexable_i l = true -> lexable_i_any l = true.
+Proof. exact (@lexable_i_any_of). Qed.
+
+Theorem C14_token_before_layout : forall t c,
+  is_layout c = true -> tok_ok t None = true -> (tk t = KComment -> c = 10) -> tok_ok t (Some c) = true.
+Proof. exact (@tok_ok_before_layout). Qed.
+
+Theorem C14_parse_unparse_fact_any_layout : forall p pre l ps,
+  wf_pred p = true -> List.map fst l = up_pred p [] ->
+  forallb is_layout pre = true -> lexable_any l = true ->
+  parse_fact (render_any pre l) ps =
+    (do q <- pred_to_biscuit ps p; if existsb is_var (p_terms q) then Err EParse else Ok q).
+Proof. exact (@C14_parse_unparse_fact_any_layout). Qed.
+
+Theorem C14_parse_unparse_rule_any_layout : forall r pre l ps,
+  wfb_rule r = true -> List.map fst l = up_rule r [] ->
+  forallb is_layout pre = true -> lexable_any l = true ->
+  parse_rule (render_any pre l) ps = rule_to_biscuit ps r.
+Proof. exact (@C14_parse_unparse_rule_any_layout). Qed.
+
+Theorem C14_parse_unparse_check_any_layout : forall c pre l ps,
+  wfb_check c = true -> List.map fst l = up_check c [] ->
+  forallb is_layout pre = true -> lexable_any l = true ->
+  parse_check (render_any pre l) ps = check_to_biscuit ps c.
+Proof. exact (@C14_parse_unparse_check_any_layout). Qed.
+
+Theorem C14_parse_unparse_policy_any_layout : forall p pre l ps,
+  wfb_policy p = true -> List.map fst l = up_policy p [] ->
+  forallb is_layout pre = true -> lexable_any l = true ->
+  parse_policy (render_any pre l) ps = policy_to_biscuit ps p.
+Proof. exact (@C14_parse_unparse_policy_any_layout). Qed.
+
+Theorem C14_parse_unparse_block_any_layout : forall b pre l ps,
+  wfb_block b = true -> List.map fst l = up_block b ->
+  forallb is_layout pre = true -> lexable_any l = true ->
+  parse_block (render_any pre l) ps = block_to_biscuit ps b.
+Proof. exact (@C14_parse_unparse_block_any_layout). Qed.
+
+Theorem C14_parse_unparse_authorizer_any_layout : forall a pre l ps,
+  wfb_authorizer a = true -> List.map fst l = up_authorizer a ->
+  forallb is_layout pre = true -> lexable_any l = true ->
+  parse_authorizer (render_any pre l) ps = authorizer_to_biscuit ps a.
+Proof. exact (@C14_parse_unparse_authorizer_any_layout). Qed.
+
+(* non-vacuity: a check and a block with tabs, \r\n, runs of blanks, leading and trailing
+   newlines; where comments are accepted and where they are not; the "<" "-" adjacency *)
+Example C14_any_layout_check_nonvacuous := ParserProofs.C14_any_layout_check_nonvacuous.
+Example C14_any_layout_block_nonvacuous := ParserProofs.C14_any_layout_block_nonvacuous.
+Example C14_comments_only_leading := ParserProofs.C14_comments_only_leading.
+Example C14_lt_minus_adjacency_any_layout := ParserProofs.lt_minus_adjacency_any_layout.
+
 Theorem C14_comparison_consumes_one : forall f ts l o s1 c r rest,
   parse_expr3 f ts = POk l (o :: s1) -> cmp_of_text (tx o) = Some c ->
   parse_expr3 f s1 = POk r rest ->
@@ -152,6 +232,21 @@ Print Assumptions C14_parse_unparse_check.
 Print Assumptions C14_parse_unparse_policy.
 Print Assumptions C14_parse_unparse_block.
 Print Assumptions C14_parse_unparse_authorizer.
+Print Assumptions C14_lex_render_any_layout.
+Print Assumptions C14_lex_items_any_layout.
+Print Assumptions C14_lexable_is_lexable_any.
+Print Assumptions C14_lexable_i_is_lexable_i_any.
+Print Assumptions C14_token_before_layout.
+Print Assumptions C14_parse_unparse_fact_any_layout.
+Print Assumptions C14_parse_unparse_rule_any_layout.
+Print Assumptions C14_parse_unparse_check_any_layout.
+Print Assumptions C14_parse_unparse_policy_any_layout.
+Print Assumptions C14_parse_unparse_block_any_layout.
+Print Assumptions C14_parse_unparse_authorizer_any_layout.
+Print Assumptions C14_any_layout_check_nonvacuous.
+Print Assumptions C14_any_layout_block_nonvacuous.
+Print Assumptions C14_comments_only_leading.
+Print Assumptions C14_lt_minus_adjacency_any_layout.
 Print Assumptions C14_comparison_consumes_one.
 Print Assumptions C14_rejects_chained_comparison_run.
 Print Assumptions C14_rejects_double_negation.
